@@ -1,6 +1,10 @@
 package http
 
-import httpsrc "net/http"
+import (
+	httpsrc "net/http"
+
+	"github.com/php-any/origami/data"
+)
 
 // Export shim for /verif harnesses (injected as an overlay; never written to /repo).
 
@@ -23,4 +27,9 @@ func VerifApplyMiddlewares(final httpsrc.Handler, prio []int, fns []MiddlewareFu
 		es = append(es, middlewareEntry{priority: prio[i], fn: fns[i]})
 	}
 	return applyMiddlewares(final, es)
+}
+
+// VerifNewMiddleware builds the closure-middleware wrapper exactly as Server::middleware() does.
+func VerifNewMiddleware(v data.FuncStmt, ctx data.Context) (MiddlewareFunc, error) {
+	return newMiddleware(v, ctx)
 }
